@@ -148,6 +148,9 @@ class Build:
         cmd += ["-o", out] + self.libs
         return cmd
 
+    def cmd_key(self):
+        return sha(" ".join(self.command("OUT") + self.c_sources), self.extra_key)[:24]
+
     def key(self):
         dirs = [os.path.relpath(os.path.dirname(x), VERIF) for x in self.sources if x.startswith(VERIF + "/")]
         return sha(" ".join(self.command("OUT") + self.c_sources), repo_hash(), harness_hash(dirs), self.extra_key)[:24]
@@ -159,7 +162,7 @@ def _prune_cache():
         total = 0
         for d in os.listdir(BUILD_DIR):
             p = os.path.join(BUILD_DIR, d)
-            if not os.path.isdir(p):
+            if not os.path.isdir(p) or d in ("deps", "gen", "scratch_evidence", "scratch_replay"):
                 continue
             size = sum(os.path.getsize(os.path.join(p, f)) for f in os.listdir(p) if os.path.isfile(os.path.join(p, f)))
             entries.append((os.path.getmtime(p), p, size))
@@ -173,26 +176,74 @@ def _prune_cache():
         pass
 
 
-def do_build(b):
-    os.makedirs(BUILD_DIR, exist_ok=True)
-    d = os.path.join(BUILD_DIR, b.key())
-    out = os.path.join(d, b.name)
-    if os.path.exists(out) and os.path.exists(out + ".ok"):
-        b.path = out
-        b.cached = True
+def _parse_depfile(path):
+    try:
+        txt = open(path).read()
+    except OSError:
+        return []
+    txt = txt.replace("\\\n", " ")
+    files = []
+    for part in txt.split(":", 1)[-1].split():
+        part = part.strip()
+        if part and (part.startswith(REPO + "/") or part.startswith(VERIF + "/")) and "/build/" not in part.replace(GEN_MARK, ""):
+            files.append(part)
+        elif part and GEN_MARK in part:
+            files.append(part)
+    return sorted(set(files))
+
+
+GEN_MARK = "/build/gen/"
+
+
+def _files_hash(files):
+    h = hashlib.sha256()
+    for f in files:
+        h.update(f.encode())
         try:
-            os.utime(d, None)
+            with open(f, "rb") as fh:
+                h.update(hashlib.sha256(fh.read()).digest())
         except OSError:
+            h.update(b"missing")
+    return h.hexdigest()
+
+
+def do_build(b):
+    """Content addressed build. Stage 1 key: the command line; the dependency list recorded by the compiler (-MMD) at
+    the first build gives the stage 2 key over exactly the files the binary is made of, so an edit in /repo only
+    rebuilds the harnesses that include the edited file."""
+    os.makedirs(BUILD_DIR, exist_ok=True)
+    deps_dir = os.path.join(BUILD_DIR, "deps")
+    os.makedirs(deps_dir, exist_ok=True)
+    k1 = sha(" ".join(b.command("OUT") + b.c_sources), b.extra_key, os.path.realpath(REPO))[:24]
+    deps_path = os.path.join(deps_dir, k1 + ".json")
+    if os.path.exists(deps_path):
+        try:
+            files = json.load(open(deps_path))
+            k2 = sha(k1, _files_hash(files))[:24]
+            out = os.path.join(BUILD_DIR, k2, b.name)
+            if os.path.exists(out) and os.path.exists(out + ".ok"):
+                b.path = out
+                b.cached = True
+                try:
+                    os.utime(os.path.join(BUILD_DIR, k2), None)
+                except OSError:
+                    pass
+                return b
+        except (ValueError, OSError):
             pass
-        return b
+    d = os.path.join(BUILD_DIR, "tmp_%s_%d" % (k1, os.getpid()))
+    shutil.rmtree(d, ignore_errors=True)
     os.makedirs(d, exist_ok=True)
+    out = os.path.join(d, b.name)
     t0 = time.time()
     objs = []
+    depfiles = []
     # C sources (uECC) are compiled separately with the C compiler
     for cs in b.c_sources:
         o = os.path.join(d, os.path.basename(cs) + ".o")
         cc = "gcc" if b.compiler.startswith("g++") else "clang-14"
-        ccmd = [cc, b.opt, "-g", "-c", cs, "-o", o, "-w"] + b.san_flags() + [f for f in b.flags if f.startswith("-I") or f.startswith("-D")]
+        df = o + ".d"
+        ccmd = [cc, b.opt, "-g", "-c", cs, "-o", o, "-w", "-MMD", "-MF", df] + b.san_flags() + [f for f in b.flags if f.startswith("-I") or f.startswith("-D")]
         for i in b.includes:
             ccmd.append("-I" + (i if os.path.isabs(i) else os.path.join(VERIF, i)))
         for i in REPO_INCLUDES:
@@ -200,28 +251,60 @@ def do_build(b):
         r = subprocess.run(ccmd, capture_output=True, text=True)
         if r.returncode != 0:
             b.error = r.stderr[-4000:]
+            shutil.rmtree(d, ignore_errors=True)
             return b
         objs.append(o)
+        depfiles.append(df)
     cmd = b.command(out, objs)
+    df = out + ".d"
+    # -MMD with several sources and -o writes one depfile per source next to the output: use -MD per source via -MF only for single source
+    if len(b.sources) == 1:
+        cmd = cmd[:1] + ["-MMD", "-MF", df] + cmd[1:]
+        depfiles.append(df)
     shell = "ulimit -v %d; exec \"$@\"" % b.mem_limit_kb
     r = subprocess.run(["bash", "-c", shell, "bash"] + cmd, capture_output=True, text=True)
     b.build_s = time.time() - t0
     if r.returncode != 0:
         b.error = (r.stderr or r.stdout)[-6000:]
+        shutil.rmtree(d, ignore_errors=True)
         return b
+    files = set(b.sources + b.c_sources)
+    if len(b.sources) == 1:
+        for f in depfiles:
+            files.update(_parse_depfile(f))
+    else:
+        # several C++ sources: fall back to the whole tree as dependency set
+        for root_dir, subs in ((REPO, ["bluetoe", "tests/test_tools"]), (VERIF, ["harness", "hooks", "stubs", "refimpl"])):
+            for sub in subs:
+                for dd, dn, fn in os.walk(os.path.join(root_dir, sub)):
+                    for f in fn:
+                        if f.endswith((".hpp", ".cpp", ".h", ".c", ".inc")):
+                            files.add(os.path.join(dd, f))
+    files = sorted(files)
+    k2 = sha(k1, _files_hash(files))[:24]
+    final = os.path.join(BUILD_DIR, k2)
     open(out + ".ok", "w").close()
-    b.path = out
+    try:
+        if os.path.exists(final):
+            shutil.rmtree(final, ignore_errors=True)
+        os.rename(d, final)
+    except OSError:
+        final = d
+    with open(deps_path + ".tmp%d" % os.getpid(), "w") as f:
+        json.dump(files, f)
+    os.replace(deps_path + ".tmp%d" % os.getpid(), deps_path)
+    b.path = os.path.join(final, b.name)
     return b
 
 
 def build_all(builds, jobs=JOBS):
     uniq = {}
     for b in builds:
-        uniq.setdefault(b.key(), b)
+        uniq.setdefault(b.cmd_key(), b)
     with cf.ThreadPoolExecutor(max_workers=jobs) as ex:
         list(ex.map(do_build, uniq.values()))
     for b in builds:
-        u = uniq[b.key()]
+        u = uniq[b.cmd_key()]
         b.path, b.error, b.cached, b.build_s = u.path, u.error, u.cached, u.build_s
     _prune_cache()
     return builds
